@@ -93,6 +93,9 @@ def check(P, rep):
     include_rules(P, rep, 'C18.R7', 'c14', lambda o: 'pay_gas' in (o.get('key') or '') + (o.get('site') or '') + o['what'],
                   'gas service charges exactly the stated gas payment from the payer', 6)
     include_rules(P, rep, 'C18.R7', 'c13', lambda o: True, 'gateway announces exactly the payload it was given', 5)
+    include_rules(P, rep, 'C18.R7', 'c10', lambda o: o['rule'] in ('C10.R4',) or (o['rule'] in ('C10.R2', 'C10.R3', 'C10.R8') and 'encod' in o['what'] + (o.get('key') or '')),
+                  'the announced payload is the ITS wire encoding of the deploy message (codec encode side, layouts)', 10)
+    include_rules(P, rep, 'C18.R7', 'c11', lambda o: o['rule'] == 'C11.R1', 'token ids are the documented domain-separated derivations (C11.R1)', 8)
     check_entry(P, rep, 'deploy_remote_interchain_token', 1, 3, 4, lambda g, s: is_deploy_salt(s, g.P(1), g.P(2)), True)
     g = check_entry(P, rep, 'deploy_remote_canonical_token', 3, 2, 4, lambda g, s: is_canonical_salt(s, g.P(1)), False)
     if g is not None:
